@@ -14,4 +14,4 @@ require (
 	github.com/x448/float16 v0.8.4 // indirect
 )
 
-replace github.com/wizenheimer/comet => /tmp/wt_C08
+replace github.com/wizenheimer/comet => /repo
